@@ -52,7 +52,7 @@ Mine2Event(e) ==
       s == Sufficient(lx)
   IN /\ ~e.out.crashed /\ e.out.ok
      /\ e.facts.data = e.in.data
-     /\ IF e.in.target = <<>> THEN e.out.nonce = <<0, 0, 0, 0, 0, 0, 0, 0>>       \* target 0: any nonce, the code returns 0
+     /\ IF e.in.target = <<>> THEN Len(e.out.nonce) = 8                            \* target 0: every nonce qualifies
         ELSE /\ Qualifies(PowHash(e.facts.digest, e.out.nonce), lx)               \* sound
              \* single worker: no earlier block of 64 nonces holds a strictly qualifying nonce
              /\ e.in.workers = 1 =>
